@@ -195,6 +195,19 @@ pub fn run(ctx: &Ctx) -> CheckResult {
         out
     });
     res.absorb(merge_jobs(outs));
+    // the same histories (reduced depth) with the instance serialized + restored / replaced by its clone
+    // right before the last operation
+    if !res.out.failed() {
+        let cap = if th { 5 } else { 4 };
+        let jobs2: Vec<(usize, usize, Via)> = jobs.iter().filter(|(i, _)| spaces[*i].label != "huge period").flat_map(|(i, a)| [(*i, *a, Via::Serde), (*i, *a, Via::Clone)]).collect();
+        let outs = par_run(ctx, &jobs2, |_, (i, a, via)| {
+            let sp = &spaces[*i];
+            let mut out = JobOut::default();
+            seq_job_via(ctx, PROP, &sp.cfg, &sp.alphabet, *a, sp.depth.min(cap), *via, &mut out, |ops, last, out| node(&sp.cfg, ops, last, out));
+            out
+        });
+        res.absorb(merge_jobs(outs));
+    }
 
     // flat stretches after large values (cancellation could drive a variance negative)
     if !res.out.failed() {
